@@ -448,7 +448,7 @@ func propC18(j *Job) {
 	}
 	gen("")
 	progs = append(progs, "1C1", "3C3", "C1", "1S", "3S3", "10S", "0", "00", "X1S")
-	for _, mode := range modes {
+	for mi, mode := range modes {
 		for _, u := range []bool{false, true} {
 			for _, p := range progs {
 				a := withBase(mode.A, 100, 0xFFFFFFFE, 4000)
@@ -458,6 +458,16 @@ func propC18(j *Job) {
 				j.Explore(fmt.Sprintf("P/%s/U%v/%s", mode.Name, u, p), progScenario(spec), Budget{}, nil)
 				if j.capped() {
 					return
+				}
+				if strings.Contains(p, "0") && (mi == 0 || j.Thorough()) {
+					// the same program in blocking-write mode (a write waits for the previous one)
+					ab := a
+					ab.BlockWrite = true
+					bs := &apiProgSpec{A: ab, B: b, Unordered: u, Ops: p}
+					j.Explore(fmt.Sprintf("P/%s/U%v/%s/block", mode.Name, u, p), progScenario(bs), Budget{}, nil)
+					if j.capped() {
+						return
+					}
 				}
 			}
 		}
